@@ -38,6 +38,8 @@ def episodic():
              {('a', 'x'): ('b', 'a'), ('a', 'y'): ('g',), ('b', 'x'): ('g', 'a'), ('b', 'y'): ('b', 'g'), ('g', 'x'): ('g',), ('g', 'y'): ('g',)},
              absorbing=['g'], init=['a']),
         Skel('r2', [0, 1], {0: A, 1: A}, {(0, 'x'): (0, 1), (0, 'y'): (1,), (1, 'x'): (1,), (1, 'y'): (1,)}, absorbing=[1], init=[0]),
+        # falsy action labels, appended last (other modules index this list by position)
+        Skel('r2-falsy-actions', [0, 1], {0: ('', 0), 1: ('', 0)}, {(0, ''): (0, 1), (0, 0): (1,), (1, ''): (1,), (1, 0): (1,)}, absorbing=[1], init=[0]),
     ]
 
 
@@ -379,6 +381,8 @@ def tasks(tier, seed):
         for m in (1, 2):
             for ep in (1, 2):
                 if tier == 'quick' and ep == 2 and (m == 2 or sk.name == 'r3'):
+                    continue
+                if sk.name.endswith('falsy-actions') and (m, ep) != (1, 1):
                     continue
                 T.append(Task('train_on/%s/m%d/ep%d' % (sk.name, m, ep), h_train, (sk, m, ep, (8 if (m == 1 and ep == 2) else 10) if sk.name == 'r3' else 12), tier='B', max_paths=8000, deadline_s=400))
     T.append(Task('U/_observe/abstract-model-arrays', h_observe_U, (), tier='U', note='arrays of any shape/content, symbolic threshold'))
